@@ -364,6 +364,22 @@ struct LevelC {
     }
 };
 
+// Level G: forests -- the variant and a companion BOTH attached to Ground (in either creation order), plus a child of
+// the companion.  Needed for code that special-cases Ground-attached terminal bodies (the lone-particle fast path of
+// Translation) and for index arithmetic that differs when an earlier mobilizer has nq != nu.
+// index space: variant x frames(4) x c1(3) x order(2) x c2(3)
+struct LevelG {
+    std::vector<std::pair<int, int> > kd = kindDirs();
+    int64_t size() const { return (int64_t)kd.size() * 4 * 3 * 2 * 3; }
+    std::vector<BodySpec> specs(int64_t idx, int massSel = 0) const {
+        int c2 = idx % 3; idx /= 3; int order = idx % 2; idx /= 2; int c1 = idx % 3; idx /= 3; int fr = idx % 4; idx /= 4;
+        BodySpec v; v.kind = kd[idx].first; v.dir = kd[idx].second; v.frames = fr; v.mass = massSel; v.parent = -1;
+        BodySpec a = companion(c1), b = companion(c2); a.parent = -1;
+        if (order == 0) { b.parent = 0; return {a, v, b}; }      // companion first, then the variant on Ground, then a child of the companion
+        b.parent = 1; return {v, a, b};                          // variant first
+    }
+};
+
 // name of the RigidBodyNode instantiation behind a mobilized body (vacuity guard: which code variants were reached)
 std::string nodeTypeName(const Model& M, int bi);
 
